@@ -13,7 +13,7 @@ from engine import graph, tlc
 LEVEL = "model_checking"
 MANIFEST = dict(
     text="(b) AsyncCancel.tla is the mechanism of one pooled connection used by one asyncio task (program ops over AsyncEngine/"
-         "AsyncConnection/AsyncTransaction/AsyncSession/async_sessionmaker, one await point per driver call, asyncio.shield-ed close "
+         "AsyncConnection/AsyncTransaction/AsyncSession/async_sessionmaker, one await point per driver call plus a non-database await, asyncio.shield-ed close "
          "tasks, pool invalidation/terminate, fairy finalizer) as a deterministic event machine; TLC checks exhaustively over every "
          "program of the grammar (<=4-5 ops) with a cancellation at ANY await point that the connection is returned or terminated "
          "exactly once, nothing with an open transaction is pooled, the engine stays usable and a cancelled begin-block never "
@@ -22,14 +22,15 @@ MANIFEST = dict(
          "asyncio.timeout expiry) delivered exactly at the k-th one; each run's event trace (ops, driver calls and effects, PoolEvents, "
          "close tasks, cancellations, ledger, rows/locks seen by an independent connection, fresh checkout) is validated by TLC "
          "against TraceAsyncCancel.tla.  (a) the edge tours of ConnTxn.tla (the verified sync Connection spec) are replayed through "
-         "AsyncConnection/AsyncTransaction on real aiosqlite and on the fake driver with the same expected outcomes and observations.",
+         "AsyncConnection/AsyncTransaction on real aiosqlite and on the fake driver with the same expected outcomes and observations, "
+         "and tours of OrmSession.tla (the verified sync Session spec) through AsyncSession.",
     design_ref="3.7, 4 (C29), Appendix L",
     note="trusted: TLC, asyncio's Task.cancel/shield semantics (real, CPython 3.12), sqlite3 as the database; crash points are "
          "enumerated on the fake driver only (real aiosqlite's worker thread is not schedulable) - real aiosqlite covers clause (a); "
          "asyncpg / psycopg-async / aiomysql: no servers in this sandbox (not covered); one task, one connection per program; one "
          "cancellation per run",
     technique="TLA+ spec (AsyncCancel.tla) + TLC exhaustive model checking; code->spec trace validation of every (program, crash point) "
-              "run in batched TLC runs (TraceAsyncCancel.tla); spec->code replay of ConnTxn.tla edge tours through AsyncConnection")
+              "run in batched TLC runs (TraceAsyncCancel.tla); spec->code replay of ConnTxn.tla / OrmSession.tla edge tours through AsyncConnection / AsyncSession")
 INVS = ["MechanismSound", "ReturnsAtMostOnce", "NoLeakAtQuiescence", "PooledClean", "EngineUsable", "CancelledBlockNeverCommits",
         "InterruptedNeverPooled", "TypeOK"]
 PROPS = ["CommitNeedsDueOp", "ShieldHolds"]
@@ -78,6 +79,8 @@ def _run_config(args):
                     "harness": harness_invariants(ev), "unhandled": s["unhandled"],
                     "abandoned": bool(se and (set(se["open"]) - set(se["idle"]))),
                     "cancel_in_shield": _cancel_in_shield(ev), "cancel_in_call": _cancel_in_call(ev),
+                    "cancel_in_sleep": _cancel_in_sleep(ev),
+                    "in_begin_block": any(b in prog for b in ("engine_begin", "with_begin", "s_begin", "sm_begin")),
                     "gc_return": any(e["e"] == "pool" and e["ev"] == "detach" for e in ev),
                     "terminated": any(e["e"] == "pool" and e["ev"] == "invalidate" for e in ev)}
             out.append((info, json.dumps({"id": tid, "prog": list(prog), "pool": pool, "ev": normalise(ev)})))
@@ -93,6 +96,19 @@ def _cancel_in_shield(ev):
             depth -= 1
         elif e["e"] == "cancel" and e["t"] == "main":
             return depth > 0
+    return False
+
+
+def _cancel_in_sleep(ev):
+    """the cancellation arrived while the task was suspended in `await asyncio.sleep(0)` - the connection stays alive"""
+    op = None
+    for e in ev:
+        if e["e"] == "opstart":
+            op = e["op"]
+        elif e["e"] == "opend":
+            op = None
+        elif e["e"] == "cancel" and e["t"] == "main":
+            return op == "sleep"
     return False
 
 
@@ -204,6 +220,42 @@ def clause_a(chk, rng):
     return out
 
 
+def clause_a_orm(chk, rng):
+    """a sample of OrmSession.tla's state graph (the sync Session's verified spec) through AsyncSession, both drivers"""
+    from checks import ormsession_common as OC
+    from checks.asynccancel_orm import AsyncOrmDriver
+    dev = OC.probe_deviations(os.path.join(chk.work, "orm_probe")) & set(OC.DEV_ALL)
+    depth = 5 if chk.quick else 6
+    acts = ["SetV", "Sp", "Close", "Get", "Refresh", "Expire"]
+    cs = OC.consts(2, 1, depth, True, acts, dev, vals=(1,))
+    g = graph.dump(OC.SPEC, OC.mk_cfg(cs, [], [], emit=True), os.path.join(chk.work, "orm_graph"), timeout=1700, heap="4g")
+    cov = {}
+    for e in g.edges:
+        cov[e[1]["a"]] = cov.get(e[1]["a"], 0) + 1
+    for a in ("Add", "Delete", "Flush", "Commit", "Rollback", "BeginNested", "SpCommit", "SpRollback", "Close", "Get", "Refresh", "Expire", "SetV"):
+        if not cov.get(a):
+            chk.machinery("vacuous: OrmSession action %s never taken in the AsyncSession sample" % a)
+    walks, plan = graph.plan_tours(g, depth, rng)
+    if chk.quick and len(walks) > 700:
+        walks = rng.sample(walks, 700)           # quick tier: a seeded sample of the tours; thorough: every edge
+    out = {"graphs": [], "steps": 0, "walks": 0}
+    for impl in ("aiosqlite", "fake"):
+        steps, mism = graph.replay(g, walks, lambda wid, wd, impl=impl: AsyncOrmDriver(wid, wd, eoc=True, impl=impl),
+                                   os.path.join(chk.work, "replay_orm_" + impl), nproc=16)
+        for m in mism:
+            a = m["act"] if isinstance(m["act"], dict) else {"a": m["act"]}
+            chk.violation({"spec": "OrmSession", "action": a.get("a"), "ret": str(a.get("ret")), "kind": "sync-vs-async", "impl": impl},
+                          "AsyncSession (%s) diverges from OrmSession.tla, the spec of the sync Session: %s  [walk: %s]"
+                          % (impl, m["mismatch"][:600], OC.fmt_walk(m["walk"]) if m.get("walk") else ""), m)
+        out["graphs"].append(dict(graph="OrmSession", impl=impl, consts=str(cs), edges=len(g.edges), plan=plan, walks=len(walks),
+                                  steps=steps, mismatches=len(mism), states=g.tlc.distinct))
+        out["steps"] += steps
+        out["walks"] += len(walks)
+    if walks:
+        out["sample"] = OC.fmt_walk([g.edges[ei][1] for ei in walks[len(walks) // 2]])
+    return out
+
+
 # ----------------------------------------------------------------------------------------------- main
 def main(chk):
     rng = random.Random(chk.seed)
@@ -229,10 +281,10 @@ def main(chk):
     POST = ("commit", "rollback", "execute", "close")
     if chk.quick:
         configs += [(p, pool, "cancel", ()) for p in p3 for pool in ("empty", "cold")]
-        configs += [(p, "idle", "cancel", ()) for p in rng.sample(only5, 90)]
+        configs += [(p, "idle", "cancel", ()) for p in rng.sample(only5, 60)]
         configs += [(p, "empty", "cancel", ()) for p in rng.sample(only4, 25)]
-        configs += [(p, "idle", "timeout", ()) for p in rng.sample(p4, 40)]
-        configs += [(p, "idle", "cancel", POST) for p in rng.sample(p4, 40)]
+        configs += [(p, "idle", "timeout", ()) for p in rng.sample(p4, 35)]
+        configs += [(p, "idle", "cancel", POST) for p in rng.sample(p4, 35)]
     else:
         configs += [(p, "idle", "cancel", ()) for p in only5]
         configs += [(p, pool, "cancel", ()) for p in p4 for pool in ("empty", "cold")]
@@ -286,25 +338,34 @@ def main(chk):
     cats = {"cancel_while_shielded_close_runs": sum(1 for i, _ in traces if i["cancel_in_shield"]),
             "cancel_in_driver_call": sum(1 for i, _ in traces if i["cancel_in_call"]),
             "cancel_in_commit_call": sum(1 for i, _ in traces if i["cancel_in_call"] == "commit"),
+            "cancel_in_non_database_await": sum(1 for i, _ in traces if i["cancel_in_sleep"]),
+            "cancel_in_non_database_await_inside_begin_block": sum(1 for i, _ in traces if i["cancel_in_sleep"] and i["in_begin_block"]),
             "terminated_after_cancel": sum(1 for i, _ in traces if i["terminated"]),
             "returned_by_finalizer": sum(1 for i, _ in traces if i["gc_return"]),
             "abandoned_while_being_created": sum(1 for i, _ in traces if i["abandoned"]),
             "timeouts": sum(1 for i, _ in traces if i["mode"] == "timeout" and i["k"] is not None),
             "effect_before_suspension": sum(1 for i, _ in traces if i["post"] and i["k"] is not None)}
     for k in ("cancel_while_shielded_close_runs", "cancel_in_driver_call", "cancel_in_commit_call", "terminated_after_cancel",
-              "returned_by_finalizer", "timeouts", "effect_before_suspension"):
+              "returned_by_finalizer", "timeouts", "effect_before_suspension", "cancel_in_non_database_await",
+              "cancel_in_non_database_await_inside_begin_block"):
         if not cats[k] and "b" in parts:
             chk.machinery("vacuous: no trace with %s" % k)
     # 3. clause (a)
     t0 = time.time()
     ca = clause_a(chk, rng) if "a" in parts else {"graphs": [], "walks": 0, "steps": 0, "sample": None}
+    co = clause_a_orm(chk, rng) if "a" in parts else {"graphs": [], "walks": 0, "steps": 0}
+    ca["graphs"] += co["graphs"]
+    ca["walks"] += co["walks"]
+    ca["steps"] += co["steps"]
     t_a = time.time() - t0
-    nontriv = sum(1 for i, _ in traces if i["k"] is not None and (i["cancel_in_call"] or i["cancel_in_shield"]))
+    nontriv = sum(1 for i, _ in traces if i["k"] is not None and (i["cancel_in_call"] or i["cancel_in_shield"] or i["cancel_in_sleep"]))
     pick = [t for t in traces if t[0]["k"] is not None and t[0]["cancel_in_shield"]][:1] + \
-           [t for t in traces if t[0]["cancel_in_call"] == "commit"][:1]
+           [t for t in traces if t[0]["cancel_in_call"] == "commit"][:1] + \
+           [t for t in traces if t[0]["cancel_in_sleep"] and t[0]["in_begin_block"]][:1]
     samples = [{"trace": i["id"], "events": ["%s:%s" % (e["e"], e["a"]) for e in json.loads(line)["ev"] if e["e"] not in ("call", "ret")]}
                for i, line in pick]
     samples.append({"conntxn_walk_through_AsyncConnection": ca.get("sample")})
+    samples.append({"ormsession_walk_through_AsyncSession": co.get("sample")})
     return chk.finish(
         dict(states=r.distinct + tstates + sum(g["states"] for g in ca["graphs"][::2]), transitions=r.generated + tgen,
              model=dict(consts=str(consts), distinct=r.distinct, generated=r.generated, depth=r.depth,
@@ -315,8 +376,9 @@ def main(chk):
              distinct_nontrivial=nontriv, samples=samples, wall_runs_s=round(t_runs, 1), wall_trace_tlc_s=round(t_tlc, 1),
              wall_clause_a_s=round(t_a, 1), exhaustive=True, partial=("a" not in parts or "b" not in parts),
              rule="one trace per (program of the grammar, pool state, cancel|timeout, effect-before/after-suspension, suspension k); "
-                  "non-trivial = the cancellation was delivered while a driver call on the program's connection was in flight or while "
-                  "a shielded close task was running; clause (a): every edge of the ConnTxn graphs replayed through AsyncConnection",
+                  "non-trivial = the cancellation was delivered while a driver call on the program's connection was in flight, while "
+                  "a shielded close task was running or while the task awaited something else with the connection checked out; clause (a): every edge of the ConnTxn graphs replayed through AsyncConnection, "
+                  "tours of an OrmSession graph through AsyncSession (quick: seeded sample of the tours)",
              checker_cmd="tlc AsyncCancel.tla; tlc TraceAsyncCancel.tla (TRACE_FILE, -workers 1, batches); tlc ConnTxn.tla (edge dump)"),
         assumptions=["SQLite only; crash points enumerated on a deterministic fake aiosqlite (every driver call suspends exactly once, before or "
                      "after its effect) over real sqlite3; asyncpg / psycopg-async / aiomysql need servers that do not exist here",
